@@ -364,6 +364,28 @@ theorem C09_connections_interleaving (ka : Bool) (inst : Nat) (fs₁ fs₂ : Lis
   intro g _
   rw [hsame g]
 
+/-- **Who asks to close.** In every format (raw with an HTTP/1.0 or 1.1 request line alike): a request whose ammo entry
+and `headers` option define no `Connection` header does not ask the transport to close its connection — these are the
+flights with `close = false` that `C09_connections_keepalive` speaks about. -/
+theorem C09_no_connection_header_no_close (f : Format) (conf lines : List (Str × Str)) (e : Entry) (g : Gun) (r : Req)
+    (h : buildReq f (confHdr conf) lines e = some r)
+    (hn : expHeader f conf (seenLines f lines) connKey = none) :
+    (shoot g r).close = false :=
+  close_of_buildReq f conf lines e r h hn
+
+/-- the keep-alive bound for shots: guns `< inst`, shots built from entries that say nothing about `Connection`, any
+sending order, any subset arriving -/
+theorem C09_connections_of_shots (inst : Nat) (shots : List (Nat × Shot)) (arrived : Shot → Bool)
+    (hg : ∀ p ∈ shots, p.1 < inst) (hc : ∀ p ∈ shots, p.2.close = false) :
+    connRun true inst (shots.map fun p => ⟨p.1, arrived p.2, p.2.close⟩) ≤ inst := by
+  apply C09_connections_keepalive
+  · intro f hf
+    obtain ⟨p, hp, rfl⟩ := List.mem_map.mp hf
+    exact hg p hp
+  · intro f hf
+    obtain ⟨p, hp, rfl⟩ := List.mem_map.mp hf
+    exact hc p hp
+
 /-- an instance on its own: with keep-alive and no request asking to close, all its requests share one connection -/
 theorem C09_one_connection_per_instance (fs : List Flight) (hc : ∀ f ∈ fs, f.close = false) :
     gunConns true false fs ≤ 1 := (gunConns_keepalive_le_one false fs hc).1
@@ -555,6 +577,9 @@ example :
   intro g
   simp only [flightsOf, List.filter_cons, List.filter_nil]
   by_cases h0 : (0 == g) = true <;> by_cases h1 : (1 == g) = true <;> simp_all
+
+/-- `C09_no_connection_header_no_close`: a raw HTTP/1.0 entry without headers, option without Connection -/
+example : expHeader .raw [(xa, vConf)] (seenLines .raw []) connKey = none := by decide
 
 /-- `C09_preload_same_requests` / `C09_json_sequence` / `C09_raw_sequence`: a pass that decodes, with a well-formed option -/
 example : (scanPass .raw (confHdr [(xa, vConf)]) [Item.mk [(xa, vFile)] { slash with method := GET, minor := 0 }]).2 = .ok ∧
